@@ -286,7 +286,19 @@ def make_world(case):
             (pn, meth, seed) = ent[:3]
             kind = ent[3] if len(ent) > 3 else 'i3'
             mcls = Linear1DGridManifoldInterpolationMethod if meth == 'linear' else Parabola1DGridManifoldInterpolationMethod
-            if kind == 'sigset':
+            if kind == 'sigprod':
+                # SignalPDFProduct of two PDF sets interpolated in the SAME parameter: the real PDFProduct.get_pd
+                # (product rule of the densities) on two real SignalMultiDimGridPDFSet.get_pd
+                from skyllh.core.pdf import SignalPDFProduct
+                sg1 = SigSet(local_name(pn), mcls, TableFunc(seed))
+                sg2 = SigSet(local_name(pn), mcls, TableFunc(seed + 7, scale=0.2))
+                prod = object.__new__(SignalPDFProduct)
+                prod._pdf1, prod._pdf2, prod._cfg, prod._pmm, prod._axes = sg1, sg2, cfg, W.pmm, None
+                prod._param_set = type('PSet', (), {'params_name_list': [local_name(pn)]})()
+                prod.initialize_for_new_trial(tdm)
+                sgs += [sg1, sg2]
+                er = SigOverBkgPDFRatio(sig_pdf=prod, bkg_pdf=BkgPDF('bkg2'), same_axes=False, cfg=cfg)
+            elif kind == 'sigset':
                 sg = SigSet(local_name(pn), mcls, TableFunc(seed))
                 sg.initialize_for_new_trial(tdm)
                 sgs.append(sg)
